@@ -5,7 +5,7 @@ import casadi as ca
 import mpmath as mp
 import z3
 
-from ..harness import Harness, Claim, HarnessError
+from ..harness import Harness, Claim, HarnessError, StructureChanged
 from ..val import Val
 from .. import val as V
 from ..enc import Ctx, Angle
@@ -31,13 +31,13 @@ def model():
     md = q.derive_model()
     f = md["f"]
     if f.size_in(0) != (17, 1) or f.size_in(1) != (4, 1) or f.size_in(2) != (39, 1):
-        raise HarnessError("quadrotor model has an unexpected signature")
+        raise StructureChanged("quadrotor model has an unexpected signature")
     names = [md["p"][i].name() for i in range(39)]
     exp = (["tau_up", "tau_down"] + [f"dir_motor_{i}" for i in range(4)] + [f"l_motor_{i}" for i in range(4)]
            + [f"theta_motor_{i}" for i in range(4)] + ["CT", "CM", "Cl_p", "Cm_q", "Cn_r", "CD0", "S", "rho", "g", "m",
                                                        "Jx", "Jy", "Jz"])
     if names[:27] != exp:
-        raise HarnessError(f"parameter vector layout changed: {names[:27]}")
+        raise StructureChanged(f"parameter vector layout changed: {names[:27]}")
     return md
 
 
